@@ -1,0 +1,89 @@
+//go:build verif
+
+// Contracts for the deductive verifier in /verif (comment-only file; no code).
+// The storage-hook specification of hooks/storage/zz_verif_contracts.go, for this back end (C20, C22).
+
+package bolt
+
+// the key-value engine behind setKv / delKv is trusted to store what it is given under the key it is given
+// verif:func bolt.Hook.setKv trusted
+//@ modifies nset
+//@ ensures nset == old(nset) + 1
+// verif:func bolt.Hook.delKv trusted
+//@ modifies ndel
+//@ ensures ndel == old(ndel) + 1
+// verif:func bolt.clientKey pure
+//@ requires cl != nil
+//@ ensures C22-client-key: r0 == ckey(cl.ID)
+// verif:func bolt.subscriptionKey pure
+//@ requires cl != nil
+//@ ensures C22-subscription-key: r0 == skey(cl.ID, filter)
+// verif:func bolt.retainedKey pure
+//@ ensures C22-retained-key: r0 == rkey(topic)
+// verif:func bolt.inflightKey pure
+//@ requires cl != nil
+//@ ensures C22-inflight-key: r0 == ikey(cl.ID, pk.PacketID)
+
+// verif:func bolt.Hook.updateClient
+//@ requires cl != nil && h.Log != nil
+//@ modifies nset
+//@ ensures C22-client-record-written-once: h.db != nil ==> nset == old(nset) + 1
+//@ callsite bolt.Hook.setKv C20-C22-client-record-is-keyed-and-identifies-the-session: arg1 == ckey(cl.ID) && clientRecord(clRec(arg2), cl)
+//@ callsite bolt.Hook.setKv C20-C22-client-record-keeps-the-connect-properties: clientRecordProps(clRec(arg2), cl)
+//@ callsite bolt.Hook.setKv C20-C22-client-record-keeps-the-property-presence-flags: clientRecordFlags(clRec(arg2), cl)
+//@ callsite bolt.Hook.setKv C20-C22-client-record-keeps-the-will: clientRecordWill(clRec(arg2), cl)
+
+// verif:func bolt.Hook.OnDisconnect
+//@ requires cl != nil && h.Log != nil
+//@ modifies nset, ndel
+//@ ensures C22-disconnect-updates-the-client-record: h.db != nil ==> nset == old(nset) + 1
+//@ callsite bolt.Hook.delKv C22-only-an-expired-session-is-deleted: arg1 == ckey(cl.ID) && expire
+
+// verif:func bolt.Hook.OnSubscribed
+//@ requires cl != nil && h.Log != nil && len(reasonCodes) >= len(pk.Filters)
+//@ modifies nset
+//@ callsite bolt.Hook.setKv C20-C22-subscription-record-has-the-options: arg1 == skey(cl.ID, pk.Filters[i].Filter) && subRec(arg2).ID == arg1 && subRecord(subRec(arg2), cl, pk.Filters[i], reasonCodes[i])
+// verif:loop bolt.Hook.OnSubscribed 1
+//@ invariant 0 <= i && cl != nil && h.Log != nil && len(reasonCodes) >= len(pk.Filters)
+
+// verif:func bolt.Hook.OnUnsubscribed
+//@ requires cl != nil && h.Log != nil
+//@ modifies ndel
+//@ callsite bolt.Hook.delKv C22-subscription-deleted-under-its-key: arg1 == skey(cl.ID, pk.Filters[i].Filter)
+// verif:loop bolt.Hook.OnUnsubscribed 1
+//@ invariant 0 <= i && cl != nil && h.Log != nil
+
+// verif:func bolt.Hook.OnRetainMessage
+//@ requires cl != nil && h.Log != nil
+//@ modifies nset, ndel
+//@ ensures C22-retained-message-written-or-deleted: h.db != nil ==> (r == -1 ? (ndel == old(ndel) + 1 && nset == old(nset)) : (nset == old(nset) + 1 && ndel == old(ndel)))
+//@ callsite bolt.Hook.delKv C22-cleared-retained-message-deleted-under-its-key: arg1 == rkey(pk.TopicName) && r == -1
+//@ callsite bolt.Hook.setKv C20-C22-retained-record-is-keyed-and-attributed: arg1 == rkey(pk.TopicName) && msgRec(arg2).ID == arg1 && retainedIdentity(msgRec(arg2), cl, pk)
+//@ callsite bolt.Hook.setKv C20-C22-retained-record-has-header-topic-and-payload: msgContent(msgRec(arg2), pk)
+//@ callsite bolt.Hook.setKv C20-C22-retained-record-keeps-the-publish-properties: msgPropsKept(msgRec(arg2), pk)
+//@ callsite bolt.Hook.setKv C20-C22-retained-record-keeps-the-payload-format-flag: msgPayloadFormatFlagKept(msgRec(arg2), pk)
+
+// verif:func bolt.Hook.OnQosPublish
+//@ requires cl != nil && h.Log != nil
+//@ modifies nset
+//@ ensures C22-inflight-message-written-once: h.db != nil ==> nset == old(nset) + 1
+//@ callsite bolt.Hook.setKv C20-C22-inflight-record-is-keyed-and-attributed: arg1 == ikey(cl.ID, pk.PacketID) && msgRec(arg2).ID == arg1 && inflightIdentity(msgRec(arg2), cl, pk, sent)
+//@ callsite bolt.Hook.setKv C20-C22-inflight-record-has-header-topic-and-payload: msgContent(msgRec(arg2), pk)
+//@ callsite bolt.Hook.setKv C20-C22-inflight-record-keeps-the-publish-properties: msgPropsKept(msgRec(arg2), pk)
+//@ callsite bolt.Hook.setKv C20-C22-inflight-record-keeps-the-payload-format-flag: msgPayloadFormatFlagKept(msgRec(arg2), pk)
+
+// verif:func bolt.Hook.OnQosComplete
+//@ requires cl != nil && h.Log != nil
+//@ modifies ndel
+//@ ensures C22-completed-message-deleted-once: h.db != nil ==> ndel == old(ndel) + 1
+//@ callsite bolt.Hook.delKv C22-inflight-message-deleted-under-its-key: arg1 == ikey(cl.ID, pk.PacketID)
+
+// verif:func bolt.Hook.OnRetainedExpired
+//@ requires h.Log != nil
+//@ modifies ndel
+//@ callsite bolt.Hook.delKv C22-expired-retained-message-deleted-under-its-key: arg1 == rkey(filter)
+
+// verif:func bolt.Hook.OnClientExpired
+//@ requires cl != nil && h.Log != nil
+//@ modifies ndel
+//@ callsite bolt.Hook.delKv C22-expired-client-deleted-under-its-key: arg1 == ckey(cl.ID)
